@@ -42,7 +42,7 @@ def tool_cases(draw, name, tier):
     case = draw(base_case(name, max_len=3 if tier == "quick" else 5, max_src=3))
     if name != "iter_sentinel":
         for s in case["srcs"]:
-            s["fl"] = draw(st.sampled_from(["agen", "aclass", "aplain", "aclass", "aclass_noclose"]))
+            s["fl"] = draw(st.sampled_from(["agen", "aclass", "aplain", "aclass", "aclass_noclose", "agenlike"]))
             s["susp"] = draw(st.integers(1, 2))
     else:
         case["srcs"][0]["fl"] = "async"
@@ -91,6 +91,10 @@ def run_tool(case, cancel_at):
         if outcome[0] != "raise" or outcome[1] is not cancel:
             raise Violation(f"C18/{tool}/cancellation-not-propagated",
                             f"cancel_at={cancel_at} outcome={outcome!r}", case=dict(case, cancel_at=cancel_at))
+        meddling = [e for e in b.ctx.log if e[0] in ("asend", "athrow")]
+        if meddling:
+            raise Violation(f"C18/{tool}/library-sends-or-throws-into-a-source", f"{meddling[:2]}",
+                            case=dict(case, cancel_at=cancel_at))
         leaked = [s.name for s in owed_sources(b, case) if not s.released]
         if leaked:
             raise Violation(f"C18/{tool}/source-leaked-after-cancel",
